@@ -60,6 +60,9 @@ def _strategy():
         # the first receiver's Dm1 object has one more subscriber, registered first, that post-processes what it is handed
         # (adds a text to every code dict, maps the 'not available' count to None, switches a lamp off in its copy)
         "sub_mutates": st.sampled_from([False, False, True]),
+        # the first receiver's CA carries a SECOND Dm1 object, created first, whose only subscriber is a one-shot consumer
+        # (it unsubscribes itself inside its first call)
+        "other_dm1_oneshot": st.sampled_from([False, False, True]),
         # with also_rx: the sending Dm1 object has TWO own subscribers, the first one takes that long - and the foreign node's DM1
         # arrives half that time before the object's own next send cycle
         "own_slow": st.sampled_from([0.0, 0.0, 0.004, 0.03]),
@@ -78,7 +81,7 @@ class C16:
             "625 lamp combinations, DM22 request bytes for boundary SPNs x all 32 FMI x both request kinds; end-to-end cases are "
             "drawn by Hypothesis: layer, 1-4 cycles each with a lamp dict (any subset of pl/awl/rsl/mil, states 0..4) and 1..400 "
             "trouble codes (classes 1 / 2-3 / 14-16 / 100 / 400), cycle time above ('long', every cycle must arrive) or below "
-            "('short', every received value must have been supplied, no more often than supplied) the transfer duration, 1-2 subscribers, in one case of three the sending Dm1 object also subscribes while a foreign node sends DM1 in between and the application hands out one persistent lamp dict (optionally with two own subscribers of which the first takes 4 / 30 ms while the foreign DM1 arrives just before the object's own next cycle), in one case of three the first receiver has a further subscriber that post-processes the dicts it is handed, in one case of four the application keeps one lamp dict and one code list and refills them before every cycle and in one of four it also keeps the code dicts and only updates their fields, a data callback that takes 0 / 5 / 30 ms, then "
+            "('short', every received value must have been supplied, no more often than supplied) the transfer duration, 1-2 subscribers, in one case of three the sending Dm1 object also subscribes while a foreign node sends DM1 in between and the application hands out one persistent lamp dict (optionally with two own subscribers of which the first takes 4 / 30 ms while the foreign DM1 arrives just before the object's own next cycle), in one case of three the first receiver has a further subscriber that post-processes the dicts it is handed, in one of three its CA carries a second Dm1 object whose only subscriber is a one-shot consumer, in one case of four the application keeps one lamp dict and one code list and refills them before every cycle and in one of four it also keeps the code dicts and only updates their fields, a data callback that takes 0 / 5 / 30 ms, then "
             "stop_send - from the application between cycles, from inside the data callback, or from the application while the "
             "data callback is running - and three further cycle times of silence; non-trivial (e2e) = at least one multi-frame DM1 was received; "
             "every codec block is non-trivial; distinct = distinct blocks / parameter sets")
@@ -195,6 +198,12 @@ class C16:
             for i in range(p["nsub"]):
                 r = w.stack("R%d" % i, dll=p["dll"])
                 rca = r.add_ca("r", 0x20 + i, 0x50 + i)
+                if i == 0 and p.get("other_dm1_oneshot"):
+                    other = j.Dm1(rca)
+
+                    def consume_once(sa, lamps, dtcs, ts, other=other):
+                        other.unsubscribe(consume_once)
+                    other.subscribe(consume_once)
                 rd = j.Dm1(rca)
                 got.append([])
                 if i == 0 and p.get("oneshot_first"):
